@@ -35,7 +35,7 @@ def id_init(n):
 
 
 def case_key(c):
-    return json.dumps([c["op"], c["script"], c["data"], c["init"], c["cap0"], c["n"], c["pieces"], c.get("fail_at")],
+    return json.dumps([c["op"], c["script"], c["data"], c["init"], c["cap0"], c["n"], c["pieces"], c.get("ff", 0)],
                       separators=(",", ":"))
 
 
@@ -76,7 +76,7 @@ def judge(chk, cases, outs, tag, batch=6000, workers=4):
         lines = []
         for c, o in zip(cases[k:k + batch], outs[k:k + batch]):
             lines.append({"op": c["op"], "script": c["script"], "data": c["data"], "init": c["init"],
-                          "cap0": c["cap0"], "n": c["n"], "pieces": c["pieces"],
+                          "cap0": c["cap0"], "n": c["n"], "pieces": c["pieces"], "ff": c.get("ff", 0),
                           "calls": o["calls"], "err": o["err"], "rn": o["rn"], "buf": o["buf"],
                           "pos": o["pos"], "panic": o["panic"] or ""})
         path = os.path.join(chk.work, "trace_%s_%d.ndjson" % (tag, k))
@@ -189,8 +189,39 @@ def random_cases(rng, count):
                 cuts = sorted(rng.randint(0, m) for _ in range(rng.randint(0, 5)))
                 pieces = [b - a for a, b in zip([0] + cuts, cuts + [m])]
                 c["pieces"] = pieces
+                c["ff"] = 1 if rng.random() < 0.25 else 0
             cases.append(c)
     return cases
+
+
+def run_print(chk, bindir, tier):
+    """unix/print.rs: the macros' writer over a pipe with signal-induced short writes / EINTR."""
+    rounds = 4 if tier == "quick" else 30
+    p = core.run_cmd([os.path.join(bindir, "iohelp"), "print", str(chk.seed), str(rounds)], timeout=900)
+    recs = [json.loads(l) for l in p.stdout.splitlines() if l.strip()]
+    if not recs:
+        raise core.ToolError("iohelp print produced nothing: " + p.stderr[-500:])
+    path = os.path.join(chk.work, "print.ndjson")
+    core.write_ndjson(path, recs)
+    res = core.run_tlc("IoHelpersTrace.tla", "IoHelpersPrint.cfg", workers=1, env={"TRACE": path}, timeout=900,
+                       metadir=os.path.join(chk.work, "md_print_%d" % os.getpid()))
+    core.tlc_must_pass(res, "IoHelpersTrace (print records)")
+    j = res.printed("JUDGED")
+    if len(j) != 1 or j[0]["n"] != len(recs):
+        raise core.ToolError("print records not judged: " + res.out[-1000:])
+    chk.add_tlc(res)
+    chk.traces += len(recs)
+    for i in j[0]["bad"]:
+        r = recs[i - 1]
+        kind = "lost_or_duplicated" if r["mismatch"] != -1 or r["rlen"] > r["len"] else "incomplete"
+        chk.violate({"op": "print", "kind": kind},
+                    "%s of %d bytes over a pipe (%d signals): descriptor received %d bytes, first difference at %d, newline %s, result %s" % (
+                        r["kind"], r["len"], r["signals"], r["rlen"], r["mismatch"], r["nl"], {0: "Err", 1: "Ok", 2: "discarded"}[r["ok"]]),
+                    {"mode": "print", "record": r})
+    chk.extra["print_path_runs"] = len(recs)
+    chk.extra["print_path_runs_with_signal_during_write"] = sum(1 for r in recs if r["signals"] > 0)
+    chk.extra["print_path_cut_short_by_eintr"] = sum(1 for r in recs if r["rlen"] < r["len"])
+    return recs
 
 
 # ------------------------------------------------------------------------------------------
@@ -236,7 +267,7 @@ def run(tier):
     cases = []
     for b in behaviours:
         c = {"op": b["op"], "script": b["script"], "data": b["data"], "init": b["init"], "cap0": b["cap0"],
-             "n": b["n"], "pieces": b["pieces"]}
+             "n": b["n"], "pieces": b["pieces"], "ff": b["ff"]}
         k = case_key(c)
         if k not in models:
             models[k] = []
@@ -280,9 +311,11 @@ def run(tier):
                         c["op"], len(c["init"]), c["cap0"], c["n"], script_str(c["script"]), o["err"], o["rn"], len(o["buf"]),
                         " PANIC " + o["panic"] if o["panic"] else ""),
                     {"case": c, "observed": o})
+    # 5. the print macros' own writer loop (unix/print.rs)
+    precs = run_print(chk, bindir, tier)
     # accounting
     allc = cases + rcases
-    chk.evaluations = len(allc)
+    chk.evaluations = len(allc) + len(precs)
     chk.nontrivial = len({case_key(c) for c in allc if nontrivial(c)})
     nconf = len(conf) + len(rconf)
     chk.exhaustive = True
